@@ -21,8 +21,8 @@ import sup
 
 RULE = ("part A: one case = one history over the 29-letter alphabet {add(i,p), remove(i), set_priority(i,p), clear} on four builder-made archives (overlapping, disjoint, "
         "case- and slash-variant names) with p in {-5,0,7}; after EVERY operation read_file under several spellings of every name of the universe (+ absent names), list(), "
-        "contains_file, find_file_archive, archive_count and get_priority are compared with a (priority desc, add-sequence asc) list model; quick = all histories of length <= 3, "
-        "thorough = all of length <= 3 + length 4 sampled to ~60000 + 500 random length-12 histories; plus every insertion order x priority assignment of the multiset {-5,0,0,7} "
+        "contains_file, find_file_archive, archive_count and get_priority are compared with a (priority desc, add-sequence asc) list model; all histories of length <= 3 "
+        "+ length 4 sampled (quick 12000, thorough 60000) + random length-12 histories (quick 100, thorough 500); plus every insertion order x priority assignment of the multiset {-5,0,0,7} "
         "(and all-equal) x {sequential add_archive, from_archives_parallel, add_archives_parallel after a sequential prefix} under seeded delays, and 48 tied single-name archives "
         "loaded in parallel. part B: one case = one generated PTCH patch driven through PatchFile::parse + apply_patch with every header field altered over boundary values, every "
         "16th (quick) / every (thorough) payload byte altered, bsdiff40 header/control fields at boundary values, truncations and altered base files; or one PatchChain over archives "
@@ -392,7 +392,7 @@ def bsd_variants(rng, old, new, ctrl, data, extra, quick, style):
         emit("bsd.ctrl.dropped", b"BSDIFF40" + struct.pack("<QQQ", cs - 12, ds, len(new)) + cb[32:])
     # data / extra bytes
     step = 16 if quick else 1
-    lim = 24 if quick else 400
+    lim = 24 if quick else 128
     for region, start, ln in (("bsd.data", 32 + cs, ds), ("bsd.extra", 32 + cs + ds, len(extra))):
         pos = list(range(rng.randrange(step) if ln else 0, ln, step))
         if len(pos) > lim:
@@ -686,15 +686,24 @@ def run(tier, seed, scratch, t0):
     binpath = sup.build("vh-mpq", "c08")
     res = sup.Result("C08")
     # ---- part A: chain histories
-    sup.run_workers(res, binpath, ["--mode", "chain"], tier, seed, scratch, nshards=16, case_timeout=120, label="A")
+    sup.run_workers(res, binpath, ["--mode", "chain"], tier, seed, scratch, nshards=16, case_timeout=120, label="A", env_extra={"RUST_BACKTRACE": "0"})
+    res.samples = res.samples[:3]       # leave room for samples of part B
     # ---- part B: patches
     pdir = os.path.join(scratch, "P")
     cnt = generate_corpus(tier, seed, pdir)
     for k, v in cnt.items():
         res.add_counter("corpus_" + k, v)
     # crash attribution needs one open case per process death: the generic signature is refined afterwards
-    sup.run_workers(res, binpath, ["--mode", "patch", "--dir", pdir], tier, seed, scratch, nshards=16, case_timeout=120, label="B")
+    sup.run_workers(res, binpath, ["--mode", "patch", "--dir", pdir], tier, seed, scratch, nshards=16, case_timeout=120, label="B", env_extra={"RUST_BACKTRACE": "0"})
     _fix_crash_signatures(res, pdir)
+    # evidence: counts instead of long lists
+    shapes = res.extras.pop("final_chain_shapes", None) or []
+    res.add_counter("distinct_final_chain_shapes", len(shapes))
+    res.extras["final_chain_shapes_sample"] = shapes[:: max(1, len(shapes) // 12)][:12]
+    for k in [k for k in res.extras if k.startswith("parallel_open_orders|")]:
+        v = res.extras.pop(k)
+        res.add_counter("distinct_" + k.replace("|", "_"), len(v))
+        res.extras[k + "|sample"] = v[:8]
     return sup.finish(res, tier, seed, "exploration", RULE, t0, assumptions=ASSUME, min_cases=2000)
 
 
@@ -706,4 +715,6 @@ def replay(rp, scratch):
         generate_corpus(r["tier"], int(r["seed"]), pdir)
         args[args.index("--dir") + 1] = pdir
         r["args"] = args
+    if rp.get("signature", "").startswith("patch-crash|"):
+        rp = dict(rp, signature="crash|" + rp["signature"][len("patch-crash|"):])   # a worker death reproduces by exit status
     return sup.generic_replay(rp, scratch, "vh-mpq")
